@@ -10,10 +10,20 @@
 (*                                                                              *)
 (* A scenario is a record                                                       *)
 (*   tree    : sequence of nodes [p |-> path, k |-> kind, data |-> bytes,       *)
-(*                                tr |-> transport]                             *)
+(*                                tr |-> transport, mem |-> member sizes]       *)
 (*             path = sequence of components, component = byte sequence         *)
-(*             kind = "dir" | "file" | "gz" | "truncgz" | "crcgz" | "badgz"     *)
+(*             kind = "dir" | "file" | "gz" | "mgz" | "truncgz" | "crcgz" |     *)
+(*                    "badgz"                                                   *)
+(*                  | "sock" | "symfile" | "symdir" | "dangling" | "dev"        *)
+(*                    (directory entries that are neither a directory nor a     *)
+(*                    regular file: unix socket, symbolic link to a file / to a *)
+(*                    directory / to nothing, device node; a FIFO is a "file"   *)
+(*                    with transport "pipe")                                    *)
 (*             data = the (decompressed) content                                *)
+(*             mem  = for "mgz" (a gzip file of several members: cat a.gz b.gz, *)
+(*                    gzip -c >> x.gz) the plain sizes of the members, in       *)
+(*                    order (>= 2 members, a member may be empty, a line may    *)
+(*                    span members); <<>> for every other kind                  *)
 (*             tr   = "reg"  a regular file: can be rewound, reports its size   *)
 (*                    "pipe" a FIFO / inherited pipe: cannot be rewound and     *)
 (*                           reports size 0 whatever it will deliver            *)
@@ -34,10 +44,17 @@ Colon == 58
 StdinName == <<60, 115, 116, 100, 105, 110, 62>>      \* "<stdin>"
 DashArg   == << <<45>> >>                               \* the argument "-"
 
-GzKinds   == {"gz", "truncgz", "crcgz", "badgz"}
+GzKinds   == {"gz", "mgz", "truncgz", "crcgz", "badgz"}
 FileKinds == {"file"} \cup GzKinds
-Kinds     == {"dir"} \cup FileKinds
+\* directory entries that are neither directories nor regular files (besides the FIFO = transport "pipe")
+SpecialKinds == {"sock", "symfile", "symdir", "dangling", "dev"}
+Kinds     == {"dir"} \cup FileKinds \cup SpecialKinds
 Transports == {"reg", "pipe"}
+\* a REGULAR file - what the property's -R clause speaks of - and its complement among the non-directories
+Regular(n) == n.k \in FileKinds /\ n.tr = "reg"
+Special(n) == n.k \in SpecialKinds \/ (n.k # "dir" /\ n.tr = "pipe")
+RECURSIVE SumSeq(_)
+SumSeq(s) == IF s = <<>> THEN 0 ELSE s[1] + SumSeq(Tail(s))
 IsAbs(p)  == p # <<>> /\ p[1] = <<>>
 
 PathStr(p) == JoinSeq(p, <<Slash>>)
@@ -63,8 +80,12 @@ TreeOK(tree) ==
             /\ \A x \in DOMAIN tree[i].p[c] : tree[i].p[c][x] \notin {Slash, Star, Quest, 0, 91, 92}
        /\ IF IsAbs(tree[i].p) THEN tree[i].k # "dir"
           ELSE \A n \in 1..(Len(tree[i].p) - 1) : KindAt(tree, SubSeq(tree[i].p, 1, n)) = "dir"
-       /\ tree[i].k \in {"dir", "badgz"} => tree[i].data = <<>>
-       /\ tree[i].k = "dir" => tree[i].tr = "reg"
+       /\ tree[i].k \in {"dir", "badgz"} \cup SpecialKinds => tree[i].data = <<>>
+       /\ tree[i].k \in {"dir"} \cup SpecialKinds => tree[i].tr = "reg"
+       /\ IF tree[i].k = "mgz"
+          THEN /\ Len(tree[i].mem) >= 2 /\ \A j \in DOMAIN tree[i].mem : tree[i].mem[j] >= 0
+               /\ SumSeq(tree[i].mem) = Len(tree[i].data)
+          ELSE tree[i].mem = <<>>
 
 \* ------------------------------------------- glob matching (filepath.Match on * ? and literals)
 RECURSIVE Match(_, _)
@@ -86,9 +107,11 @@ PLess(p, q) ==
   ELSE IF p[1] # q[1] THEN BLess(p[1], q[1]) ELSE PLess(Tail(p), Tail(q))
 SortPaths(S) == SetToSortSeq(S, PLess)
 
-\* every non-directory strictly below root
-WalkSet(tree, root) ==
-  {n.p : n \in {m \in Nodes(tree) : m.k # "dir" /\ Len(m.p) > Len(root) /\ IsPathPrefix(root, m.p)}}
+\* every REGULAR file strictly below root: what a -R walk must mention
+Below(root, m) == Len(m.p) > Len(root) /\ IsPathPrefix(root, m.p)
+WalkSet(tree, root) == {n.p : n \in {m \in Nodes(tree) : Regular(m) /\ Below(root, m)}}
+\* the other non-directories below root: the property does not say whether a walk mentions them
+WalkMay(tree, root) == {n.p : n \in {m \in Nodes(tree) : Special(m) /\ Below(root, m)}}
 \* every existing path (file OR directory) matching the pattern component by component
 \* (a relative pattern never produces an absolute path: * does not match the root)
 GlobSet(tree, pat) ==
@@ -116,6 +139,53 @@ Mentions(sc) ==
 
 NameOf(m) == IF m.std THEN StdinName ELSE PathStr(m.p)
 
+\* the non-regular entries below the -R directory arguments.  The property demands that every REGULAR file
+\* below a directory argument is read exactly once - wherever such entries sit among them; whether an entry of
+\* this set is itself opened (and then delivers something or counts as a read error) is left open:
+\* rows under these names are not judged, each may add at most one read error
+MayPaths(sc) ==
+  IF UsesStdin(sc.args) \/ ~sc.rec THEN {}
+  ELSE UNION {WalkMay(sc.tree, sc.args[i]) : i \in {j \in DOMAIN sc.args : KindAt(sc.tree, sc.args[j]) = "dir"}}
+\* how often the walks reach path p
+MayCount(sc, p) ==
+  IF UsesStdin(sc.args) \/ ~sc.rec THEN 0
+  ELSE Cardinality({i \in DOMAIN sc.args : KindAt(sc.tree, sc.args[i]) = "dir" /\ p \in WalkMay(sc.tree, sc.args[i])})
+MayTotal(sc) == LET P == MayPaths(sc) ps == SetToSeq(P) IN SumSeq([i \in DOMAIN ps |-> MayCount(sc, ps[i])])
+
+\* ------------------------------------------------- the walk, written like filepath.Walk + callback
+\* filepath.Walk lists a directory in lexical order and calls the callback for every entry (Lstat: a symbolic
+\* link is an entry of its own, never followed); the callback's answer "skipdir" for a directory skips that
+\* directory, for any OTHER entry it skips THE REST OF THE DIRECTORY THAT CONTAINS IT.
+\*   policy "code"    the callback of GlobExpand: emit every non-directory, answer nil
+\*          "regular" emit regular files only, answer nil (admissible: specials are not demanded)
+\*          "skipdir" answer skipdir for FIFOs, sockets and device nodes (looks like "skip this entry")
+Children(tree, dir) ==
+  SortPaths({n.p : n \in {m \in Nodes(tree) : Len(m.p) = Len(dir) + 1 /\ IsPathPrefix(dir, m.p)}})
+Unopenable(n) == (n.k # "dir" /\ n.tr = "pipe") \/ n.k \in {"sock", "dev"}
+Callback(policy, n) ==
+  CASE policy = "code"    -> [emit |-> n.k # "dir", ret |-> "nil"]
+    [] policy = "regular" -> [emit |-> Regular(n), ret |-> "nil"]
+    [] policy = "skipdir" -> IF Unopenable(n) THEN [emit |-> FALSE, ret |-> "skipdir"]
+                             ELSE [emit |-> n.k # "dir", ret |-> "nil"]
+RECURSIVE WalkList(_, _, _)
+WalkList(tree, list, policy) ==
+  IF list = <<>> THEN <<>>
+  ELSE LET n == NodeAt(tree, list[1])
+           a == Callback(policy, n) IN
+       IF n.k = "dir"
+       THEN (IF a.ret = "skipdir" THEN <<>> ELSE WalkList(tree, Children(tree, n.p), policy))
+            \o WalkList(tree, Tail(list), policy)
+       ELSE (IF a.emit THEN <<n.p>> ELSE <<>>)
+            \o (IF a.ret = "skipdir" THEN <<>> ELSE WalkList(tree, Tail(list), policy))
+\* the names a -R walk of directory root sends to the readers
+WalkImpl(tree, root, policy) == WalkList(tree, Children(tree, root), policy)
+RegularOnly(tree, paths) == SelectSeq(paths, LAMBDA p : Regular(NodeAt(tree, p)))
+
+\* the members of a multi-member gzip node
+RECURSIVE CutBy(_, _)
+CutBy(d, sizes) == IF sizes = <<>> THEN <<>> ELSE <<TakeFirst(d, sizes[1])>> \o CutBy(DropFirst(d, sizes[1]), Tail(sizes))
+Members(n) == IF n.k = "mgz" THEN CutBy(n.data, n.mem) ELSE <<n.data>>
+
 \* ------------------------------------------------------------- open and read
 \* full = the bytes of the input, mode = "exact" (all of full is delivered) | "prefix" (some
 \* prefix of full is delivered), err = 1 iff the input counts as a read error
@@ -129,9 +199,11 @@ ReadOutcome(sc, m) ==
          [] k = "dir"     -> [full |-> <<>>, mode |-> "exact", err |-> 1]   \* opens, reading fails
          [] k = "file"    -> [full |-> d, mode |-> "exact", err |-> 0]      \* -z: probe fails, read from byte 0
          [] k = "gz"      -> [full |-> d, mode |-> "exact", err |-> 0]      \* (domain: only with -z)
+         [] k = "mgz"     -> [full |-> d, mode |-> "exact", err |-> 0]      \* ALL members, concatenated
          [] k = "crcgz"   -> [full |-> d, mode |-> "exact", err |-> 1]      \* fails after the last byte
          [] k = "truncgz" -> [full |-> d, mode |-> "prefix", err |-> 1]     \* fails somewhere inside
          [] k = "badgz"   -> [full |-> <<>>, mode |-> "exact", err |-> 1]   \* fails at the first byte
+         [] k \in SpecialKinds -> [full |-> <<>>, mode |-> "free", err |-> 0] \* nothing demanded (outside the domain)
 
 \* ReadOutcome does not look at the transport: what an input delivers, and whether it counts as a
 \* read error, is the same for a regular file, a FIFO, /dev/stdin and a process substitution.
@@ -218,6 +290,15 @@ OutcomeOf(sc, ms, deliv) ==
       parse |-> parse, read |-> read,
       exit |-> ExitCode(nerr, parse, matched), msg |-> ExitMsg(nerr, parse)]
 
+\* ends of a run (exit status, final message) the specification allows when up to ns read errors - and lines
+\* nobody demands - may come from non-regular entries passed by a -R walk
+AllowedEnd(o, ns) ==
+  LET u == IF ns > 0 THEN {0, 1} ELSE {0} IN
+  {<<ExitCode(o.nerr + e, o.parse + q, o.matched + m), ExitMsg(o.nerr + e, o.parse + q)>> : e \in 0..ns, q \in u, m \in u}
+\* the rows that are judged: those of sources that are not in the free set
+FreeNames(sc) == {PathStr(p) : p \in MayPaths(sc)}
+Judged(t, free) == [k \in {x \in DOMAIN t : \A nm \in free : ~IsPrefixOf(nm \o <<Colon>>, x)} |-> t[k]]
+
 PrefixIdx(sc, ms) == {i \in 1..Len(ms) : ReadOutcome(sc, ms[i]).mode = "prefix"}
 
 \* all delivery vectors the specification allows
@@ -260,13 +341,13 @@ InDomain(sc) ==
           /\ \A i \in DOMAIN sc.args : IsAbs(sc.args[i]) =>
                 /\ Exists(sc.tree, sc.args[i])
                 /\ \A c \in DOMAIN sc.args[i] : \A x \in DOMAIN sc.args[i][c] : sc.args[i][c][x] \notin {Star, Quest}
-          \* a pipe hands its bytes out once: it is mentioned at most once, and the property speaks of
-          \* REGULAR files below a -R directory only
+          \* a pipe hands its bytes out once: it is mentioned - by name, by a glob or by a -R walk - at most once
           /\ LET ms == Mentions(sc) IN
              \A p \in PipePaths(sc.tree) :
-               /\ Cardinality({i \in DOMAIN ms : ms[i].p = p}) <= 1
-               /\ sc.rec => \A i \in DOMAIN sc.args :
-                              ~(KindAt(sc.tree, sc.args[i]) = "dir" /\ IsPathPrefix(sc.args[i], p))
+               Cardinality({i \in DOMAIN ms : ms[i].p = p}) + MayCount(sc, p) <= 1
+          \* sockets, symbolic links and device nodes are in the domain only as entries a -R walk passes:
+          \* no argument names them and no glob hits them
+          /\ \A i \in DOMAIN Mentions(sc) : KindAt(sc.tree, Mentions(sc)[i].p) \notin SpecialKinds
           \* without -z nothing is demanded about how compressed files look
           /\ ~sc.gz => \A i \in DOMAIN Mentions(sc) : KindAt(sc.tree, Mentions(sc)[i].p) \notin GzKinds
 =============================================================================
